@@ -285,7 +285,8 @@ PROPS = {
     'C04': dict(
         title='Zinc text conforms to the Project Haystack grammar in both directions',
         verus=[('u_zparse', [r'^parse_str_escape$', r'^parse_str_unicode_escape$', r'^parse_str$', r'^Lexer::read$', r'^parse_literal$', r'^parse_id$', r'^lemma_lit_run_bytes$', r'^parse_unit$', r'^is_unit_char$', r'^parse_uri$', r'^parse_time_zone$']),
-               ('u_enc', [r'^write_quoted_str$', r'^write_str$', r'::to_zinc$', r'::zinc_encode$', r'^list_to_zinc$', r'^write_dict_tags$', r'^Column::to_zinc$', r'^Dict::to_zinc$', r'^Grid::to_zinc$', r'^Value::to_zinc$', r'^enc_(value|items|tag|tags|meta|col|cols|cells|rows|grid)$', r'^grid_head$', r'^grid_mid$', r'^dict_find$'])],
+               ('u_enc', [r'^write_quoted_str$', r'^write_str$', r'::to_zinc$', r'::zinc_encode$', r'^list_to_zinc$', r'^write_dict_tags$', r'^Column::to_zinc$', r'^Dict::to_zinc$', r'^Grid::to_zinc$', r'^Value::to_zinc$', r'^enc_(value|items|tag|tags|meta|col|cols|cells|rows|grid)$', r'^grid_head$', r'^grid_mid$', r'^dict_find$']),
+               ('u_zgram', [r'^Parser::parse_value$', r'^Parser::parse_nested_value$', r'^parse_list$', r'^parse_dict$', r'^parse_dict_parts$', r'^lemma_(li|di)_push$', r'_prefix$'])],
         kani=[dict(harness='k_scanner_classes', klass='complete', schema=['u8'], family=None, target='Scanner::is_* byte classes'),
               dict(harness='k_unit_char_class', klass='complete', schema=['u8'], family=None, target='zinc number::is_unit_char'),
               dict(harness='k_u8_classes', klass='complete', schema=['u8'], family=None, target='u8::is_ascii_*')],
@@ -303,11 +304,18 @@ PROPS = {
                     'after the last, name[:value] tags with the value omitted for markers, a ver:"<the version the grid carries>" line, space-separated meta, column line, one line '
                     'per row with an empty cell for an absent tag, empty marker for a grid without rows, << >> around a nested grid and only there) is '
                     'proved to be exactly what the real List/Dict/Grid/Column/Value writers emit, for every value tree, with nested values always '
-                    'written in inner-grid mode; DateTime is RFC 3339 text followed by a space and the zone name exactly when the value is not UTC.'),
+                    'written in inner-grid mode; DateTime is RFC 3339 text followed by a space and the zone name exactly when the value is not UTC. '
+                    'Reader side of lists and dicts, token level (u_zgram, every input): the real parse_value / parse_nested_value / parse_list / parse_dict / '
+                    'parse_dict_parts are proved to return a value denoted by a parse tree whose tokens are exactly the tokens they consumed -- a list is [ items '
+                    'and commas ] and its elements are what the items denote, in order, none dropped or duplicated; a dict is { tags and commas } and is the empty '
+                    'dict with each tag inserted in the order written, with the value its own parse tree denotes, or Marker when no value is written; a scalar token '
+                    'denotes its value and the end of input Null. The lexer is seen through its contract there (proved on the real lexer in u_zparse) plus a '
+                    'history variable for the tokens read; grids are opaque in that unit.'),
         not_decided=('number spelling '
                      '(the string handed to str::parse::<f64>); the text core::fmt / chrono produce for numbers, dates, times, coordinates and the '
-                     'capitalised XStr type (uninterpreted functions of the value); the reader side of composite layout '
-                     '(the decoder is proved panic-free and terminating, not against enc_value; the bounded enumerator enum:zinc-spellings checks 43 '
+                     'capitalised XStr type (uninterpreted functions of the value); the reader side of grid layout (version line, meta, columns, rows and cells) '
+                     '(the grid decoder is proved panic-free and terminating, not against the grammar; that commas appear only where the grammar allows them is '
+                     'not part of the list/dict statement; the bounded enumerator enum:zinc-spellings checks 43 '
                      'alternative spellings -- number forms, \\u escapes, list/dict separators, CRLF line endings incl. at end of input, nested grids -- '
                      'against the plain spelling of the same value); Dict is seen through its entry list in key order. The unit class tests `> 128`, i.e. excludes '
                      'byte 0x80 that the grammar admits -- harmless: no database unit contains it (C15 lemma).'),
@@ -378,7 +386,8 @@ PROPS = {
         verus=[('u_zparse', [r'^lemma_keyword_roundtrip$', r'^Lexer::read$', r'^parse_literal$', r'^parse_str_escape$', r'^lemma_lit_run_bytes$',
                              r'^parse_str$', r'^parse_str_unicode_escape$', r'^lemma_str_body_plain$', r'^lemma_hex4_value$', r'^lemma_str_body_char$',
                              r'^lemma_str_body_enc$', r'^lemma_str_roundtrip$', r'^parse_ref$', r'^lemma_ref_run_prefix$', r'^lemma_ref_roundtrip$', r'^parse_uri$', r'^lemma_uri_body_plain$', r'^lemma_uri_body_char$', r'^lemma_uri_body_enc$', r'^lemma_uri_roundtrip$', r'^parse_symbol$', r'^lemma_symbol_roundtrip$', r'^parse_xstr_body$', r'^lemma_lit_run_prefix$', r'^lemma_xstr_roundtrip$']),
-               ('u_enc', [r'^write_quoted_str$', r'^Str::to_zinc$', r'^Ref::to_zinc$', r'^Uri::to_zinc$', r'^Symbol::to_zinc$', r'^XStr::to_zinc$', r'^lemma_str_escape_inverse$', r'^Marker::to_zinc$', r'^Remove::to_zinc$', r'^Na::to_zinc$', r'^Bool::to_zinc$', r'^Number::to_zinc$'])],
+               ('u_enc', [r'^write_quoted_str$', r'^Str::to_zinc$', r'^Ref::to_zinc$', r'^Uri::to_zinc$', r'^Symbol::to_zinc$', r'^XStr::to_zinc$', r'^lemma_str_escape_inverse$', r'^Marker::to_zinc$', r'^Remove::to_zinc$', r'^Na::to_zinc$', r'^Bool::to_zinc$', r'^Number::to_zinc$']),
+               ('u_zgram', [r'^Parser::parse_value$', r'^Parser::parse_nested_value$', r'^parse_list$', r'^parse_dict$', r'^parse_dict_parts$'])],
         kani=[dict(harness='k_zinc_keywords', klass='complete', schema=['u8'], family=None, target='to_zinc of Marker/Remove/Na/Bool')],
         witness=['enum:zinc-roundtrip-scalars', 'enum:zinc-escape'],
         design_ref='DESIGN.md section 4, C01',
